@@ -122,6 +122,15 @@ fn is_moderately_nested(cursor: Cursor<'_>) -> bool {
                     right_nesting += 1;
                 }
             }
+            // So do the keywords taking an operand (`return return ..`, `else if .. else if ..`).
+            proc_macro2::TokenTree::Ident(i)
+                if i == "return" || i == "break" || i == "else" || i == "yield" =>
+            {
+                right_nesting += 1;
+                run = 0;
+            }
+            // `&mut &mut ..`, `&raw const ..` are still one run of prefix operators.
+            proc_macro2::TokenTree::Ident(i) if i == "mut" || i == "raw" || i == "const" => {}
             _ => run = 0,
         }
         if levels.len() > LIMIT || run > LIMIT || right_nesting > 4 * LIMIT {
